@@ -130,48 +130,20 @@ Qed.
 Section Chain.
   Context {A : Type}.
 
+  (* the composite IS the ideal computation: every chain, every behaviour assignment, every wrapped outcome *)
+  Lemma chain_ideal_l : forall es (w : result A), chain es (wrapped w) = ideal es w.
+  Proof.
+    induction es as [|e r IH]; intros w; [reflexivity|]. cbn [chain]. rewrite (IH w).
+    unfold ideal, wrapper, ext_call, calls_through. cbn [ideal_trace fst snd].
+    destruct (beh e); destruct w; cbn [is_ok fst snd app]; rewrite ?app_nil_r; try reflexivity.
+    all: rewrite <- ?app_assoc; reflexivity.
+  Qed.
+
   Lemma chain_result_l : forall es (w : result A), snd (chain es (wrapped w)) = w.
-  Proof.
-    induction es as [|e r IH]; intros w; [reflexivity|]. cbn [chain]. specialize (IH w).
-    destruct (chain r (wrapped w)) as [t res]. cbn in IH. subst res.
-    unfold wrapper, ext_call. destruct (beh e); destruct w; reflexivity.
-  Qed.
+  Proof. intros. rewrite chain_ideal_l. reflexivity. Qed.
 
-  (* outside both known-defect domains the faithful composite is the ideal one *)
-  Lemma chain_ideal_l : forall es (a : A), kf_raise_after es = false ->
-    chain es (wrapped (Ok a)) = ideal es (Ok a).
-  Proof.
-    induction es as [|e r IH]; intros a Hk; [reflexivity|]. cbn [kf_raise_after existsb] in Hk.
-    apply orb_false_iff in Hk. destruct Hk as [He Hr]. cbn [chain]. rewrite (IH a Hr).
-    unfold ideal, wrapper, ext_call, raises_after in *. cbn [is_ok ideal_trace fst snd].
-    destruct (beh e); [reflexivity | | discriminate]. cbn [app]. reflexivity.
-  Qed.
-
-  (* number of executions of the wrapped function in the faithful model *)
-  Lemma chain_calls_l : forall es (w : result A),
-    calls (fst (chain es (wrapped w))) = Nat.pow 2 (List.length (filter (doubles w) es)).
-  Proof.
-    induction es as [|e r IH]; intros w; [reflexivity|]. cbn [chain filter]. specialize (IH w).
-    assert (Hr := chain_result_l r w). destruct (chain r (wrapped w)) as [t res]. cbn [fst snd] in *. subst res.
-    destruct (doubles w e) eqn:Ed; cbn [List.length Nat.pow];
-      remember (List.length (filter (doubles w) r)) as n eqn:Hn; clear Hn;
-      unfold wrapper, ext_call, doubles, calls in *;
-      destruct (beh e); destruct w; cbn [is_ok negb fst snd] in *; try discriminate;
-      repeat (rewrite ?count_cons, ?count_app); cbn [is_call count filter List.length]; rewrite ?IH; lia.
-  Qed.
-
-  Lemma chain_enters_ge_l : forall es (w : result A) e, In e es -> 1 <= enters (eid e) (fst (chain es (wrapped w))).
-  Proof.
-    induction es as [|x r IH]; intros w e Hin; [destruct Hin|]. cbn [chain].
-    assert (Hr := chain_result_l r w). specialize (IH w e).
-    destruct (chain r (wrapped w)) as [t res]. cbn [fst snd] in *. subst res.
-    unfold wrapper, ext_call, enters in *.
-    destruct Hin as [->|Hin].
-    - destruct (beh e); destruct w; cbn [fst snd]; repeat (rewrite ?count_cons, ?count_app); cbn [is_enter];
-        rewrite Nat.eqb_refl; lia.
-    - specialize (IH Hin).
-      destruct (beh x); destruct w; cbn [fst snd]; repeat (rewrite ?count_cons, ?count_app); cbn [is_enter]; lia.
-  Qed.
+  Lemma chain_calls_l : forall es (w : result A), calls (fst (chain es (wrapped w))) = 1.
+  Proof. intros. rewrite chain_ideal_l. apply ideal_calls. Qed.
 End Chain.
 
 (* ---------- sorting ---------- *)
@@ -282,21 +254,6 @@ Qed.
 Lemma chain_order_eq : forall h order, chain_order h order = isort (matching h order).
 Proof. intros. unfold chain_order. apply isort_idem. Qed.
 
-Lemma kf_ra_perm : forall l l', Permutation l l' -> kf_raise_after l = kf_raise_after l'.
-Proof.
-  intros l l' H. unfold kf_raise_after. induction H; cbn [existsb].
-  - reflexivity.
-  - rewrite IHPermutation. reflexivity.
-  - destruct (raises_after x), (raises_after y); reflexivity.
-  - congruence.
-Qed.
-
-Lemma all_pass_no_ra : forall l, (forall e, In e l -> beh e = Pass) -> kf_raise_after l = false.
-Proof.
-  induction l as [|x t IH]; intros H; [reflexivity|]. cbn [kf_raise_after existsb]. unfold raises_after at 1.
-  rewrite (H x (or_introl eq_refl)). cbn [orb]. apply IH. intros e He. apply H. right; exact He.
-Qed.
-
 (* pass-through transparency, any number of extenders (0, 1 or a chain) *)
 Lemma passthrough_transparent_l : forall {A} h order (a : A),
   (forall e, In e (matching h order) -> beh e = Pass) ->
@@ -312,7 +269,7 @@ Proof.
   { unfold run_wrapped. destruct (matching h order) as [|x [|y r]] eqn:Em.
     - reflexivity.
     - cbn [dispatch isort insert map]. unfold ext_call, wrapped. rewrite (Hall x (or_introl eq_refl)). reflexivity.
-    - rewrite dispatch_chain_l by (cbn; lia). rewrite chain_ideal_l by (apply all_pass_no_ra; exact Hall').
+    - rewrite dispatch_chain_l by (cbn; lia). rewrite chain_ideal_l.
       unfold ideal. cbn [is_ok]. rewrite ideal_passthrough by exact Hall'. reflexivity. }
   split; [exact Hrun|]. split; [|split; [apply isort_sorted | apply isort_perm]].
   rewrite Hrun. cbn [fst]. unfold passthrough_trace, calls. rewrite !count_app.
@@ -337,49 +294,60 @@ Proof.
   - intros A f. unfold run_wrapped. symmetry. apply dispatch_perm_l; assumption.
 Qed.
 
-(* a chain without raise-after extenders and a returning wrapped function: the ideal trace *)
-Lemma chain_run_ideal_l : forall {A} h order (a : A),
-  2 <= List.length (matching h order) -> kf_raise_after (matching h order) = false ->
-  run_wrapped h order (wrapped (Ok a)) = ideal (chain_order h order) (Ok a).
+(* a chain behaves ideally: all behaviours, all outcomes of the wrapped function *)
+Lemma chain_run_ideal_l : forall {A} h order (w : result A),
+  2 <= List.length (matching h order) ->
+  run_wrapped h order (wrapped w) = ideal (chain_order h order) w.
 Proof.
-  intros A h order a Hlen Hk. unfold run_wrapped. rewrite dispatch_chain_l by exact Hlen. rewrite chain_order_eq.
-  apply chain_ideal_l. rewrite (kf_ra_perm _ _ (isort_perm _)). exact Hk.
+  intros A h order w Hlen. unfold run_wrapped. rewrite dispatch_chain_l by exact Hlen. rewrite chain_order_eq.
+  apply chain_ideal_l.
+Qed.
+
+Lemma composite_ideal_l : forall {A} l (w : result A), composite_call l (wrapped w) = ideal (composite_order l) w.
+Proof. intros. unfold composite_call. apply chain_ideal_l. Qed.
+
+Lemma chain_order_nodup : forall h order, NoDup (map eid (matching h order)) -> NoDup (map eid (chain_order h order)).
+Proof.
+  intros h order Hnd. rewrite chain_order_eq. eapply Permutation_NoDup; [|exact Hnd].
+  apply Permutation_map. symmetry. apply isort_perm.
+Qed.
+
+Lemma chain_sees_once_l : forall {A} h order (w : result A),
+  2 <= List.length (matching h order) -> NoDup (map eid (matching h order)) ->
+  snd (run_wrapped h order (wrapped w)) = w /\
+  sees_once (chain_order h order) (is_ok w) (fst (run_wrapped h order (wrapped w))).
+Proof.
+  intros A h order w Hlen Hnd. rewrite chain_run_ideal_l by assumption. unfold ideal. cbn [fst snd].
+  split; [reflexivity|]. apply ideal_sees_once_l. apply chain_order_nodup. exact Hnd.
 Qed.
 
 Lemma raise_before_skipped_l : forall {A} h order (a : A),
-  2 <= List.length (matching h order) -> kf_raise_after (matching h order) = false ->
-  NoDup (map eid (matching h order)) ->
+  2 <= List.length (matching h order) -> NoDup (map eid (matching h order)) ->
   snd (run_wrapped h order (wrapped (Ok a))) = Ok a /\
   sees_once (chain_order h order) true (fst (run_wrapped h order (wrapped (Ok a)))).
-Proof.
-  intros A h order a Hlen Hk Hnd. rewrite chain_run_ideal_l by assumption. unfold ideal. cbn [fst snd is_ok].
-  split; [reflexivity|]. apply ideal_sees_once_l. rewrite chain_order_eq.
-  eapply Permutation_NoDup; [|exact Hnd]. apply Permutation_map. symmetry. apply isort_perm.
-Qed.
+Proof. intros A h order a Hlen Hnd. exact (chain_sees_once_l h order (Ok a) Hlen Hnd). Qed.
+
+Lemma call_count_l : forall {A} h order (w : result A), 2 <= List.length (matching h order) ->
+  calls (fst (run_wrapped h order (wrapped w))) = 1.
+Proof. intros A h order w Hlen. rewrite chain_run_ideal_l by exact Hlen. apply ideal_calls. Qed.
 
 Lemma wrapped_call_not_lost_l : forall {A} h order (w : result A),
   2 <= List.length (matching h order) ->
   snd (run_wrapped h order (wrapped w)) = w /\
-  1 <= calls (fst (run_wrapped h order (wrapped w))) /\
-  forall e, In e (matching h order) -> 1 <= enters (eid e) (fst (run_wrapped h order (wrapped w))).
+  calls (fst (run_wrapped h order (wrapped w))) = 1 /\
+  (NoDup (map eid (matching h order)) ->
+   forall e, In e (matching h order) -> enters (eid e) (fst (run_wrapped h order (wrapped w))) = 1).
 Proof.
-  intros A h order w Hlen. unfold run_wrapped. rewrite dispatch_chain_l by exact Hlen.
-  split; [apply chain_result_l|]. split.
-  - rewrite chain_calls_l. generalize (List.length (filter (doubles w) (isort (matching h order)))). intros n.
-    induction n; cbn [Nat.pow]; lia.
-  - intros e He. apply chain_enters_ge_l. eapply Permutation_in; [symmetry; apply isort_perm | exact He].
+  intros A h order w Hlen. split; [|split].
+  - rewrite chain_run_ideal_l by exact Hlen. reflexivity.
+  - apply call_count_l. exact Hlen.
+  - intros Hnd e He. destruct (chain_sees_once_l h order w Hlen Hnd) as [_ Hs].
+    apply (so_enter _ _ _ Hs). rewrite chain_order_eq. eapply Permutation_in; [symmetry; apply isort_perm | exact He].
 Qed.
 
 Lemma filter_length_perm : forall (p : extender -> bool) l l', Permutation l l' ->
   List.length (filter p l) = List.length (filter p l').
 Proof. intros. apply Permutation_length, filter_perm. assumption. Qed.
-
-Lemma call_count_l : forall {A} h order (w : result A), 2 <= List.length (matching h order) ->
-  calls (fst (run_wrapped h order (wrapped w))) = Nat.pow 2 (List.length (filter (doubles w) (matching h order))).
-Proof.
-  intros A h order w Hlen. unfold run_wrapped. rewrite dispatch_chain_l by exact Hlen. rewrite chain_calls_l.
-  f_equal. apply filter_length_perm, isort_perm.
-Qed.
 
 (* a single matching extender is not protected by try/except *)
 Lemma single_extender_unprotected_l : forall {A} h order e (w : result A), matching h order = [e] ->
@@ -387,14 +355,20 @@ Lemma single_extender_unprotected_l : forall {A} h order e (w : result A), match
 Proof. intros A h order e w H. unfold run_wrapped. rewrite H. reflexivity. Qed.
 
 (* ---------- plans ---------- *)
-Lemma run_ideal_l : forall {A} h order (a : A), kf_raise_after (matching h order) = false ->
-  run_wrapped h order (wrapped (Ok a)) = ideal_run_wrapped h order (Ok a).
+Lemma run_ideal_l : forall {A} h order (w : result A),
+  run_wrapped h order (wrapped w) = ideal_run_wrapped h order w.
 Proof.
-  intros A h order a Hk. destruct (matching h order) as [|x [|y r]] eqn:Em.
+  intros A h order w. destruct (matching h order) as [|x [|y r]] eqn:Em.
   - unfold run_wrapped, ideal_run_wrapped. rewrite Em. reflexivity.
   - unfold run_wrapped, ideal_run_wrapped. rewrite Em. reflexivity.
-  - rewrite chain_run_ideal_l; [| rewrite Em; cbn; lia | rewrite Em; exact Hk].
+  - rewrite chain_run_ideal_l; [| rewrite Em; cbn; lia].
     unfold ideal_run_wrapped. rewrite chain_order_eq, Em. reflexivity.
+Qed.
+
+Lemma run_calls_ideal_l : forall order fails cs, run_calls order fails cs = ideal_run_calls order fails cs.
+Proof.
+  intros order fails cs. induction cs as [|c r IH]; [reflexivity|]. cbn [run_calls ideal_run_calls].
+  rewrite run_ideal_l, IH. reflexivity.
 Qed.
 
 Lemma run_calls_pass_l : forall order fails cs, (forall e, In e order -> beh e = Pass) ->
@@ -450,21 +424,12 @@ Definition mk (i : nat) (p : Z) (b : behaviour) : extender := {| eid := i; prio 
 Definition wit_ra : list extender := [mk 0 1 Pass; mk 1 2 RaiseAfter; mk 2 3 Pass].
 Definition wit_fail : list extender := [mk 0 1 Pass; mk 1 2 Pass; mk 2 3 Pass].
 
-Lemma raise_after_double_call_l :
-  kf_raise_after wit_ra = true /\
+(* the two former defect witnesses (fixed in /repo by 50d7ec2) now behave ideally *)
+Lemma former_witnesses_l :
   run_wrapped HCalc wit_ra (wrapped (Ok 7)) =
-    ([Enter 0; Enter 1; Enter 2; Call; Exit 2; Logged 1; Enter 2; Call; Exit 2; Exit 0], Ok 7) /\
-  calls (fst (run_wrapped HCalc wit_ra (wrapped (Ok 7)))) = 2 /\
-  enters 2 (fst (run_wrapped HCalc wit_ra (wrapped (Ok 7)))) = 2 /\
-  run_wrapped HCalc wit_ra (wrapped (Ok 7)) <> ideal (chain_order HCalc wit_ra) (Ok 7).
-Proof. vm_compute. repeat split; try reflexivity. discriminate. Qed.
-
-Lemma failing_wrapped_repeated_l :
-  kf_raise_after wit_fail = false /\ kf_wrapped_fails (@Err nat WrappedExn) = true /\
-  calls (fst (run_wrapped HCalc wit_fail (wrapped (@Err nat WrappedExn)))) = 8 /\
-  snd (run_wrapped HCalc wit_fail (wrapped (@Err nat WrappedExn))) = Err WrappedExn /\
-  run_wrapped HCalc wit_fail (wrapped (@Err nat WrappedExn)) <> ideal (chain_order HCalc wit_fail) (Err WrappedExn).
-Proof. vm_compute. repeat split; try reflexivity. discriminate. Qed.
+    ([Enter 0; Enter 1; Enter 2; Call; Exit 2; Logged 1; Exit 0], Ok 7) /\
+  run_wrapped HCalc wit_fail (wrapped (@Err nat WrappedExn)) = ([Enter 0; Enter 1; Enter 2; Call], Err WrappedExn).
+Proof. vm_compute. split; reflexivity. Qed.
 
 Lemma tie_order_matters_l :
   let a := mk 0 5 Pass in let b := mk 1 5 Pass in
